@@ -132,14 +132,16 @@ structure St where
   /-- `(validator, remote key)`: the key each validator registered for the bridge's chain
       (valset external chain infos, read through `GetValidatorAddressByEthAddress`) -/
   keys : List (Nat × Nat)
-  /-- validators jailed through bad-signature evidence -/
+  /-- jailed validators (the staking jailed flag): written by bad-signature evidence here; Props/C13.lean
+      adds every other jailing mechanism (`Op13.jail`, prune-time jailing of the world machine) to the
+      same set, which `registerKey` consults -/
   jailed : List Nat
   lastObserved : Nat
   claims : List (Nat × Claim)
   /- History logs: written, never read by any step.  Each is tied to the op history / the executable
-     state by theorems of Props/C01.lean (`accepted_provenance`, `refunded_provenance`, `fundLog_eq`,
-     `user_ledger`, `minted_eq_applied`, `applied_once_in_order`, `credits_from_deposit_claims`,
-     `burned_provenance`, `minted_without_faults`). -/
+     state by theorems of Props/C01.lean (`accepted_provenance`, `accepted_forever`, `refunded_provenance`,
+     `fundLog_eq`, `user_ledger`, `minted_eq_applied`, `applied_once_in_order`, `credits_from_deposit_claims`,
+     `burned_provenance`, `tally_results_are_log_flags`, `minted_without_faults`). -/
   accepted : List Tx
   refunded : List Tx
   burned : List Tx
